@@ -21,7 +21,7 @@ fn with_probe(mut stmt: Vec<Node>) -> Vec<Node> {
     stmt
 }
 
-/// leaf statements of the exhaustive C04 grammar (18)
+/// leaf statements of the exhaustive C04 grammar (21)
 pub fn leaves() -> Vec<Vec<Node>> {
     let mut v = Vec::new();
     for n in NAMES {
@@ -29,6 +29,9 @@ pub fn leaves() -> Vec<Vec<Node>> {
         v.push(vec![Node::Capture(n.to_string(), vec![Node::Text("cap".into()), Node::Incr("c".into())])]);
         v.push(vec![Node::Incr(n.to_string())]);
         v.push(vec![Node::Decr(n.to_string())]);
+        // re-assigning a name to the value it currently resolves to still creates an assigned
+        // binding (it matters once the loop / include / counter binding it was read from ends)
+        v.push(vec![Node::Assign(n.to_string(), Expr::var(n), vec![])]);
         // a capture whose body prints nothing still binds (the empty text)
         v.push(vec![Node::Capture(n.to_string(), vec![Node::If { arms: vec![(Cond::atom(Atom::Truthy(Expr::Lit(RVal::Bool(false)))), vec![Node::Text("never".into())])], else_: None }])]);
     }
